@@ -123,12 +123,16 @@ def run(prop, tier):
     report = Report(prop, tier)
     # design level: the expansion algorithm as implemented (JasmMacroPass) against the property-level
     # meaning (InlineRef / Unresolved); the control is the pinned tree's algorithm and must fail
-    for cfg, must_fail in ([("MC_MacroPass_C13.cfg", False)] if prop == "C13" else
-                           [("MC_MacroPass_C19.cfg", False), ("MC_MacroPass_C19_control.cfg", True)]):
-        st = tlc.run("MC_MacroPass", cfg=cfg)
-        report.add_tlc(st, f"design-level MC_MacroPass {cfg}")
+    steps = ([("MC_MacroPass", "MC_MacroPass_C13.cfg", False)] if prop == "C13" else
+             [("MC_MacroPass", "MC_MacroPass_C19.cfg", False), ("MC_MacroPass", "MC_MacroPass_C19_control.cfg", True)])
+    # the composed pipeline (Jasm: pass algorithm -> Parse -> Compile -> regex scan over the encoded stream) against
+    # the reference (InlineRef -> Parse -> MI), invariant EndToEnd; control: without the final scan it must fail
+    steps += [("MC_Jasm", "MC_Jasm.cfg", False)] + ([("MC_Jasm", "MC_Jasm_control.cfg", True)] if prop == "C19" else [])
+    for mod, cfg, must_fail in steps:
+        st = tlc.run(mod, cfg=cfg)
+        report.add_tlc(st, f"design-level {mod} {cfg}" + (" (control, must fail)" if must_fail else ""))
         if bool(st["violated"]) != must_fail:
-            raise MachineryError(f"MC_MacroPass {cfg}: expected {'a violation' if must_fail else 'no violation'}\n"
+            raise MachineryError(f"{mod} {cfg}: expected {'a violation' if must_fail else 'no violation'}\n"
                                  + st["stdout"][-1500:])
         tlc.cleanup(st)
     export = "Export_C13" if prop == "C13" else "Export_C19"
